@@ -24,6 +24,6 @@ CONFIG = {
         "collision resistance of SHA-256 appears only as the alternative `∨ Collision H` in the conclusions (reduction form) under the satisfiable hypothesis that all hash values have the same length; encoders of Lib are assumed injective where a conclusion needs it",
         "the metadata transaction's state root is trusted because the transaction list is bound to the verified data hash (block validity, i.e. the correctness of what validators signed, is outside the light-client model)",
     ],
-    "partial": "Unbound by design and stated as theorems: Block.Size (documented), results at the latest trusted height and all result events (documented TODOs), result log/info/codespace, validator address/priority/proposer, evidence/validator/version consensus parameters, raw meta encodings, a proof's index when its total is not the list length. Candidate defects reported by the driver: last-commit Height/Round/BlockID unbound in verifyBlock; nil-pointer panics on provider-controlled results/parameters metas.",
+    "partial": "Unbound by design and stated as theorems: Block.Size (documented), results at the latest trusted height and all result events (documented TODOs), result log/info/codespace, validator address/priority/proposer, evidence/validator/version consensus parameters, raw meta encodings, a proof's index when its total is not the list length, and the last commit's Round (known finding accepted-lastcommit-round). Five defects found by this check were repaired in /repo (2867612, 19aed5a, 8acc1f7, 199a3f5, b4f8eb2; corpus/C19/f1..f5); model and theorems describe the repaired code. The public entry points are modelled as light client -> provider -> verification compositions (api_returns_only_verified) and driven through the real Core with a trusted-store light client; GetTransactionsWithResults' result conversion and the event delivery of Services are outside the model.",
     "explanation": "Theorems about the verification model for every response; correspondence implementation vs model on recorded + synthetic light-block pairs with field-level and byte-level alterations, all transaction lists 0..N with all indexes and altered proofs.",
 }
